@@ -62,6 +62,8 @@ def build_config(case: dict[str, Any]) -> EnOptConfig:
         "variables": {"initial_values": case["x0"], "lower_bounds": case["lb"], "upper_bounds": case["ub"]},
         "optimizer": {"method": spell(case["method"], case.get("spelling")), "options": OPTIONS[case["options"]]},
     }
+    if case.get("parallel") and case["method"] == "differential_evolution":
+        cfg["optimizer"]["parallel"] = True  # (the population is evaluated as one batch)
     if case["max_iterations"] is not None:
         cfg["optimizer"]["max_iterations"] = case["max_iterations"]
     if case.get("max_functions") is not None:  # the evaluation budget is ropt's own business, it does not change the iteration limit
@@ -282,6 +284,16 @@ def run_case(case: dict[str, Any]) -> dict[str, Any]:  # noqa: C901, PLR0912, PL
               f"free point {xf.tolist()}: configured problem {'feasible' if conf else 'infeasible'}, handed problem "
               f"{'feasible' if hand else 'infeasible'} (configured margins {margins_configured(case, xf, free)}, "
               f"handed {margins_handed(kw, cap.kind or '', xf, case)})", case)
+    if method == "differential_evolution" and case.get("parallel"):
+        # a population handed over as one matrix (one column per member): column s of the answer belongs to member s
+        members = test_points(case, free)[:5]
+        population = np.array(members, dtype=np.float64).T
+        for c_i, con in enumerate(kw.get("constraints") or []):
+            if isinstance(con, NonlinearConstraint) and len(members) > 1:
+                got = np.asarray(con.fun(population.copy()), dtype=np.float64)
+                exp = np.column_stack([np.atleast_1d(np.asarray(con.fun(np.array(m, dtype=np.float64)), dtype=np.float64)) for m in members])
+                check(got.shape == exp.shape and bool(np.allclose(got, exp, rtol=1e-12, atol=1e-12)), "population-values",
+                      f"constraint object {c_i} evaluated for a population of {len(members)}: {got.tolist()}, member by member: {exp.tolist()}", case)
     x_a = np.array(case["points"], dtype=np.float64).reshape(-1, n)[0][free]
     for c_i, con in enumerate(kw.get("constraints") or []):
         funs = None
@@ -339,6 +351,7 @@ def exhaustive_shard(item: dict[str, Any]) -> Collector:
                     case = base_case(n, method, options, maxit)
                     case["spelling"] = SPELLINGS[count % len(SPELLINGS)]
                     case["max_functions"] = (None, 1000)[(count // len(SPELLINGS)) % 2]
+                    case["parallel"] = count % 3 != 0
                     case["nl"] = [list(kind_bounds(k, 0.25 * (i + 1), 1.0 + i)) for i, k in enumerate(kinds[:c_n])]
                     case["lin"] = [list(kind_bounds(k, -0.5 + 0.3 * i, 2.0)) for i, k in enumerate(kinds[c_n:])]
                     case["a_nl"] = [((2 * i + 3 * j) % 5 - 2.0) or 1.0 for i in range(c_n) for j in range(n)]
@@ -407,6 +420,7 @@ def hypothesis_shard(item: dict[str, Any]) -> Collector:
             lb = [v if np.isfinite(v) else -3.0 for v in lb]
             ub = [v if np.isfinite(v) else 4.0 for v in ub]
         case["lb"], case["ub"] = lb, ub
+        case["parallel"] = method == "differential_evolution" and draw(st.booleans())
         case["x0"] = [draw(st.sampled_from([0.0, 0.5, -0.5, 1.0])) for _ in range(n)]
         case["types"] = [draw(st.sampled_from([1, 2])) for _ in range(n)] if draw(st.integers(0, 2)) == 0 else None
         c_n, l_n = draw(st.integers(0, 3)), draw(st.integers(0, 3))
